@@ -88,6 +88,7 @@ fn main() {
                         "A" => engine_a::replay(&r.config, &r.case),
                         "B" => engine_b::replay(&r.config, &r.case),
                         "seed" => props_a::replay_seed(&r.config),
+                        "C12s" => props_g::replay_c12s(&r.config),
                         "C04" => props_d::replay_c04(&r.config),
                         "C07" => props_e::replay_c07(&r.config, &r.case),
                         "C09a" | "C09b" => props_f::replay_c09(&r.engine, &r.case),
